@@ -377,6 +377,11 @@ def get_attr(I, obj, name):
             I.raise_("AttributeError", name)
     if isinstance(obj, SSeq):
         return sseq_method(I, obj, name)
+    if isinstance(obj, ast.AST):
+        try:
+            return getattr(obj, name)
+        except AttributeError:
+            I.raise_("AttributeError", name)
     h = I.registry.getattr_fallback
     if h is not None:
         return h(I, obj, name)
@@ -789,6 +794,8 @@ def equal_values(I, a, b):
         return compare("==", a, b)
     if a is None or b is None:
         return False
+    if isinstance(a, IdToken) or isinstance(b, IdToken):
+        return a == b
     if isinstance(a, str) or isinstance(b, str):
         return isinstance(a, str) and isinstance(b, str) and a == b
     if isinstance(a, (tuple, PList)) and isinstance(b, (tuple, PList)):
@@ -1019,6 +1026,22 @@ def power(I, a, b):
     raise PyvcError("symbolic exponent not modelled")
 
 
+class IdToken:
+    """id(obj): equal exactly when the referents are the same object (no address arithmetic modelled)."""
+
+    def __init__(self, ref):
+        self.ref = ref
+
+    def __eq__(self, other):
+        return isinstance(other, IdToken) and other.ref is self.ref
+
+    def __hash__(self):
+        return id(self.ref)
+
+    def __repr__(self):
+        return f"id({self.ref!r})"
+
+
 class RangeVal:
     def __init__(self, start, stop, step=1):
         self.start, self.stop, self.step = start, stop, step
@@ -1055,7 +1078,7 @@ def iterate(I, v, lineno=None):
     """Concrete iteration: list of elements, or an error asking for a loop contract."""
     from .interp import GenExp
 
-    if isinstance(v, tuple):
+    if isinstance(v, (tuple, list)):
         return list(v)
     if isinstance(v, PList):
         return list(v.items)
@@ -1128,6 +1151,8 @@ def norm_index(I, i, n):
 
 
 def get_item(I, obj, idx):
+    if isinstance(obj, list):
+        obj = tuple(obj)
     if isinstance(obj, (tuple, PList, str, bytes)):
         items = obj.items if isinstance(obj, PList) else obj
         if isinstance(idx, slice):
@@ -1660,7 +1685,7 @@ def make_builtins(I):
     from .interp import BuiltinFn, ClassVal, GenExp
 
     def b_len(x):
-        if isinstance(x, (tuple, str, bytes)):
+        if isinstance(x, (tuple, str, bytes, list)):
             return len(x)
         if isinstance(x, PList):
             return len(x.items)
@@ -1874,7 +1899,7 @@ def make_builtins(I):
         return type(o)
 
     def b_id(o):
-        return Opaque("id")
+        return IdToken(o)
 
     def b_callable(o):
         from .interp import FuncVal, BoundMethod
@@ -1954,6 +1979,7 @@ def make_builtins(I):
     out["NotImplemented"] = NotImplemented
     out["Ellipsis"] = Ellipsis
     out["object"] = object
+    out["slice"] = slice
     return out
 
 
@@ -2255,6 +2281,120 @@ def _make_itertools(I):
 
 
 EXTRA_MODULES["itertools"] = _make_itertools
+
+
+def _make_ast(I):
+    import ast as _ast
+
+    return NativeModule("ast", {k: getattr(_ast, k) for k in dir(_ast) if not k.startswith("_")})
+
+
+EXTRA_MODULES["ast"] = _make_ast
+
+LIBRARY_CONTRACTS["A3-rng"] = (
+    "laws of the library RNG primitives: random() uniform on [0,1); randint(a,b) uniform on the closed integer range; "
+    "choices(pop, cum_weights=c) picks index i with probability (c[i]-c[i-1])/c[-1]; uniform/triangular/gauss as documented. "
+    "Each call is logged in the ghost RNG trace (primitive, arguments) and returns a fresh value constrained to its range."
+)
+
+
+def _make_random(I):
+    from .interp import BuiltinFn
+
+    eng = I.eng
+
+    def log(prim, args, result):
+        eng.rng_trace.append((prim, args, result))
+        return result
+
+    def random_():
+        u = eng.fresh_real("u")
+        eng.assume(sv_and(compare(">=", u, 0), compare("<", u, 1)))
+        return log("random", (), u)
+
+    def randint(a, b):
+        if not I.decide(compare("<=", a, b)):
+            I.raise_("ValueError", "empty range for randint")
+        r = eng.fresh_int("randint")
+        eng.assume(sv_and(compare("<=", a, r), compare("<=", r, b)))
+        return log("randint", (a, b), r)
+
+    def randrange(a, b=None):
+        lo, hi = (0, a) if b is None else (a, b)
+        if not I.decide(compare("<", lo, hi)):
+            I.raise_("ValueError", "empty range for randrange")
+        r = eng.fresh_int("randrange")
+        eng.assume(sv_and(compare("<=", lo, r), compare("<", r, hi)))
+        return log("randrange", (lo, hi), r)
+
+    def uniform(a, b):
+        r = eng.fresh_real("uniform")
+        lo, hi = _min(a, b), _max(a, b)
+        eng.assume(sv_and(compare("<=", lo, r), compare("<=", r, hi)))
+        return log("uniform", (a, b), r)
+
+    def triangular(low=0.0, high=1.0, mode=None):
+        r = eng.fresh_real("triangular")
+        eng.assume(sv_and(compare("<=", _min(low, high), r), compare("<=", r, _max(low, high))))
+        return log("triangular", (low, high, mode), r)
+
+    def gauss(mu=0.0, sigma=1.0):
+        r = eng.fresh_real("gauss")
+        return log("gauss", (mu, sigma), r)
+
+    def choices(population, weights=None, *, cum_weights=None, k=1):
+        pop = iterate(I, population)
+        if not pop:
+            I.raise_("IndexError", "Cannot choose from an empty sequence")
+        if k != 1:
+            raise PyvcError("random.choices with k != 1 not modelled")
+        if weights is not None and cum_weights is not None:
+            I.raise_("TypeError", "Cannot specify both weights and cumulative weights")
+        if weights is not None:
+            ws = iterate(I, weights)
+            cum, acc = [], 0
+            for w in ws:
+                acc = arith("+", acc, w)
+                cum.append(acc)
+        elif cum_weights is not None:
+            cum = iterate(I, cum_weights)
+        else:
+            cum = list(range(1, len(pop) + 1))
+        if len(cum) != len(pop):
+            I.raise_("ValueError", "The number of weights does not match the population")
+        if not I.decide(compare(">", cum[-1], 0)):
+            I.raise_("ValueError", "Total of weights must be greater than zero")
+        idx = eng.fresh_int("choice")
+        eng.assume(sv_and(compare("<=", 0, idx), compare("<", idx, len(pop))))
+        # support: an index of zero probability (c[i] == c[i-1]) is never drawn
+        for i in range(len(pop)):
+            prev = cum[i - 1] if i > 0 else 0
+            eng.assume(sv_implies(compare("==", idx, i), compare(">", cum[i], prev)))
+        log("choices", (tuple(pop), tuple(cum)), idx)
+        chosen = pop[0]
+        if all(is_scalar(x) for x in pop):
+            for i in range(1, len(pop)):
+                chosen = sv_ite(compare("==", idx, i), pop[i], chosen)
+            return PList([chosen])
+        for i in range(len(pop)):
+            if eng.branch(tobool(compare("==", idx, i))):
+                return PList([pop[i]])
+        raise PathEnd()
+
+    def getstate():
+        return ("rngstate", len(eng.rng_trace))
+
+    def setstate(st):
+        log("setstate", (st,), None)
+
+    def shuffle(lst):
+        raise PyvcError("random.shuffle not modelled")
+
+    fns = dict(random=random_, randint=randint, randrange=randrange, uniform=uniform, triangular=triangular, gauss=gauss, choices=choices, getstate=getstate, setstate=setstate, shuffle=shuffle)
+    return NativeModule("random", {k: BuiltinFn("random." + k, v) for k, v in fns.items()})
+
+
+EXTRA_MODULES["random"] = _make_random
 EXTRA_MODULES["numbers"] = lambda I: NativeModule("numbers", {"Real": NumbersReal, "Number": NumbersNumber})
 
 
